@@ -237,9 +237,13 @@ class DefaultRealizationFilter(RealizationFilter):
         failed_realizations = np.isnan(objectives[..., 0])
         objectives = np.nan_to_num(objectives[..., self._filter_options.sort])
         if objective_config.weights.size > 1:
-            objectives = np.dot(
-                objectives, objective_config.weights[self._filter_options.sort]
-            )
+            # Sum the weighted values of each realization on their own: in a
+            # matrix product the rounding may depend on the position of a
+            # row, which would rank realizations with equal values by their
+            # position rather than by index:
+            objectives = (
+                objectives * objective_config.weights[self._filter_options.sort]
+            ).sum(axis=-1)
         objectives = objectives.flatten()
         return _sort_and_select(
             objectives,
@@ -273,9 +277,13 @@ class DefaultRealizationFilter(RealizationFilter):
         failed_realizations = np.isnan(objectives[..., 0])
         objectives = np.nan_to_num(objectives[..., self._filter_options.sort])
         if objective_config.weights.size > 1:
-            objectives = np.dot(
-                objectives, objective_config.weights[self._filter_options.sort]
-            )
+            # Sum the weighted values of each realization on their own: in a
+            # matrix product the rounding may depend on the position of a
+            # row, which would rank realizations with equal values by their
+            # position rather than by index:
+            objectives = (
+                objectives * objective_config.weights[self._filter_options.sort]
+            ).sum(axis=-1)
         objectives = -objectives.flatten()
         return _get_cvar_weights_from_percentile(
             objectives, failed_realizations, self._filter_options.percentile
